@@ -251,4 +251,364 @@ theorem SameContent.fullId {D : Type} (hc : HC D) (n : Nat) : fullId hc g' n = f
 
 end SameContent
 
+/-! ### `visitP` (post-order) and `visit` (visited list) walk the same nodes -/
+
+mutual
+theorem walkValP_fst (cfgP : Nat → List Nat × List Nat → List Nat × List Nat) (cfg : Nat → List Nat → List Nat)
+    (h : ∀ n s, (cfgP n s).1 = cfg n s.1) : ∀ (v : Val) s, (walkValP cfgP v s).1 = walkVal cfg v s.1
+  | .list l, s => by simp only [walkValP, walkVal]; exact walkValsP_fst cfgP cfg h l s
+  | .dict _ vs, s => by simp only [walkValP, walkVal]; exact walkValsP_fst cfgP cfg h vs s
+  | .ref n, s => by simp only [walkValP, walkVal]; exact h n s
+  | .none, _ => by simp [walkValP, walkVal]
+  | .bool _, _ => by simp [walkValP, walkVal]
+  | .int _, _ => by simp [walkValP, walkVal]
+  | .float _, _ => by simp [walkValP, walkVal]
+  | .str _, _ => by simp [walkValP, walkVal]
+  | .enum _, _ => by simp [walkValP, walkVal]
+  | .path _, _ => by simp [walkValP, walkVal]
+theorem walkValsP_fst (cfgP : Nat → List Nat × List Nat → List Nat × List Nat) (cfg : Nat → List Nat → List Nat)
+    (h : ∀ n s, (cfgP n s).1 = cfg n s.1) : ∀ (l : List Val) s, (walkValsP cfgP l s).1 = walkVals cfg l s.1
+  | [], _ => by simp [walkValsP, walkVals]
+  | v :: vs, s => by
+    simp only [walkValsP, walkVals]
+    rw [walkValsP_fst cfgP cfg h vs, walkValP_fst cfgP cfg h v]
+end
+
+theorem walkPV_fst (cfgP : Nat → List Nat × List Nat → List Nat × List Nat) (cfg : Nat → List Nat → List Nat)
+    (h : ∀ n s, (cfgP n s).1 = cfg n s.1) : ∀ (l : List Nat) s, (walkPV cfgP l s).1 = walkNodes cfg l s.1
+  | [], _ => by simp [walkPV, walkNodes]
+  | n :: ns, s => by
+    simp only [walkPV, walkNodes]
+    rw [walkPV_fst cfgP cfg h ns, h]
+
+mutual
+theorem walkValP_inv (cfgP : Nat → List Nat × List Nat → List Nat × List Nat) (Q : List Nat × List Nat → Prop)
+    (h : ∀ n s, Q s → Q (cfgP n s)) : ∀ (v : Val) s, Q s → Q (walkValP cfgP v s)
+  | .list l, s, hs => by simp only [walkValP]; exact walkValsP_inv cfgP Q h l s hs
+  | .dict _ vs, s, hs => by simp only [walkValP]; exact walkValsP_inv cfgP Q h vs s hs
+  | .ref n, s, hs => by simp only [walkValP]; exact h n s hs
+  | .none, _, hs => by simpa [walkValP] using hs
+  | .bool _, _, hs => by simpa [walkValP] using hs
+  | .int _, _, hs => by simpa [walkValP] using hs
+  | .float _, _, hs => by simpa [walkValP] using hs
+  | .str _, _, hs => by simpa [walkValP] using hs
+  | .enum _, _, hs => by simpa [walkValP] using hs
+  | .path _, _, hs => by simpa [walkValP] using hs
+theorem walkValsP_inv (cfgP : Nat → List Nat × List Nat → List Nat × List Nat) (Q : List Nat × List Nat → Prop)
+    (h : ∀ n s, Q s → Q (cfgP n s)) : ∀ (l : List Val) s, Q s → Q (walkValsP cfgP l s)
+  | [], _, hs => by simpa [walkValsP] using hs
+  | v :: vs, s, hs => by
+    simp only [walkValsP]
+    exact walkValsP_inv cfgP Q h vs _ (walkValP_inv cfgP Q h v s hs)
+end
+
+theorem walkPV_inv (cfgP : Nat → List Nat × List Nat → List Nat × List Nat) (Q : List Nat × List Nat → Prop)
+    (h : ∀ n s, Q s → Q (cfgP n s)) : ∀ (l : List Nat) s, Q s → Q (walkPV cfgP l s)
+  | [], _, hs => by simpa [walkPV] using hs
+  | n :: ns, s, hs => by
+    simp only [walkPV]
+    exact walkPV_inv cfgP Q h ns _ (h n s hs)
+
+theorem visitP_fst (g : Graph) (stop : Nat → Bool) : ∀ fuel n s, (visitP g stop fuel n s).1 = visit g stop fuel n s.1 := by
+  intro fuel
+  induction fuel with
+  | zero => intro n s; rfl
+  | succ fuel ih =>
+    intro n s
+    obtain ⟨vis, post⟩ := s
+    simp only [visitP, visit]
+    split
+    · rfl
+    · split
+      · rfl
+      · simp only
+        cases ht : (g.node n).task with
+        | none =>
+          simp only [walkPV_fst _ _ ih, walkValsP_fst _ _ ih]
+        | some t =>
+          simp only
+          split
+          · simp only [ih, walkPV_fst _ _ ih, walkValsP_fst _ _ ih]
+          · simp only [walkPV_fst _ _ ih, walkValsP_fst _ _ ih]
+
+/-- `vis = post ∪ A` where `A` are the nodes whose frame is still open. -/
+def PostInv (A : Nat → Prop) (s : List Nat × List Nat) : Prop := ∀ m, m ∈ s.1 ↔ (m ∈ s.2 ∨ A m)
+
+theorem visitP_inv (g : Graph) : ∀ fuel n s (A : Nat → Prop), PostInv A s → PostInv A (visitP g (fun _ => false) fuel n s) := by
+  intro fuel
+  induction fuel with
+  | zero => intro n s A hs; exact hs
+  | succ fuel ih =>
+    intro n s A hs
+    obtain ⟨vis, post⟩ := s
+    simp only [visitP]
+    split
+    · exact hs
+    · rename_i hn
+      have hn' : n ∉ vis := by simpa using hn
+      simp only [Bool.false_eq_true, if_false]
+      have h0 : PostInv (fun m => A m ∨ m = n) (n :: vis, post) := by
+        intro m
+        have := hs m
+        simp only [mem_cons] at this ⊢
+        simp only [this]
+        constructor
+        · rintro (h | h | h) <;> simp [*]
+        · rintro (h | h | h) <;> simp [*]
+      have ih' : ∀ k s, PostInv (fun m => A m ∨ m = n) s → PostInv (fun m => A m ∨ m = n) (visitP g (fun _ => false) fuel k s) :=
+        fun k s => ih k s _
+      have close : ∀ s : List Nat × List Nat, PostInv (fun m => A m ∨ m = n) s → PostInv A (s.1, s.2 ++ [n]) := by
+        intro s h m
+        have := h m
+        simp only [mem_append, mem_singleton, this]
+        constructor
+        · rintro (h | h | h) <;> simp [*]
+        · rintro ((h | h) | h) <;> simp [*]
+      have h3 := walkPV_inv _ _ ih' (g.node n).initTasks _
+        (walkPV_inv _ _ ih' (g.node n).preTasks _
+          (walkValsP_inv _ _ ih' (map (fun x => x.value) (g.node n).args) _ h0))
+      cases ht : (g.node n).task with
+      | none => exact close _ h3
+      | some t =>
+        simp only
+        split
+        · exact close _ (ih' _ _ h3)
+        · exact close _ h3
+
+/-! ### the two ways of collecting pre-tasks give the same set -/
+
+theorem mem_dedup {x : Nat} : ∀ {l : List Nat}, x ∈ dedup l ↔ x ∈ l
+  | [] => by simp [dedup]
+  | y :: ys => by
+    simp only [dedup]
+    split
+    · rename_i h
+      have h' : y ∈ ys := by simpa using h
+      rw [mem_dedup, mem_cons]
+      constructor
+      · exact Or.inr
+      · rintro (rfl | h)
+        · exact h'
+        · exact h
+    · simp only [mem_cons, mem_dedup]
+
+theorem nodup_dedup : ∀ l : List Nat, (dedup l).Nodup
+  | [] => by simp [dedup]
+  | y :: ys => by
+    simp only [dedup]
+    split
+    · exact nodup_dedup ys
+    · rename_i h
+      have h' : y ∉ ys := by simpa using h
+      exact nodup_cons.mpr ⟨fun hm => h' (mem_dedup.mp hm), nodup_dedup ys⟩
+
+theorem mem_firstWins {x : Nat} (l : List Nat) : ∀ acc : List Nat,
+    x ∈ l.foldl (fun acc p => if acc.contains p then acc else acc ++ [p]) acc ↔ x ∈ acc ∨ x ∈ l := by
+  induction l with
+  | nil => simp
+  | cons y ys ih =>
+    intro acc
+    simp only [foldl_cons, ih, mem_cons]
+    split
+    · rename_i h
+      have h' : y ∈ acc := by simpa using h
+      constructor
+      · rintro (h | h) <;> simp [*]
+      · rintro (h | rfl | h) <;> simp [*]
+    · simp only [mem_append, mem_singleton]
+      constructor
+      · rintro ((h | h) | h) <;> simp [*]
+      · rintro (h | h | h) <;> simp [*]
+
+theorem nodup_firstWins (l : List Nat) : ∀ acc : List Nat, acc.Nodup →
+    (l.foldl (fun acc p => if acc.contains p then acc else acc ++ [p]) acc).Nodup := by
+  induction l with
+  | nil => intro acc h; simpa using h
+  | cons y ys ih =>
+    intro acc h
+    simp only [foldl_cons]
+    apply ih
+    split
+    · exact h
+    · rename_i hc
+      have h' : y ∉ acc := by simpa using hc
+      rw [nodup_append]
+      refine ⟨h, by simp, ?_⟩
+      intro a ha b hb
+      simp only [mem_singleton] at hb
+      subst hb
+      intro e; subst e; exact h' ha
+
+theorem mem_post_iff_reachable (g : Graph) (n m : Nat) :
+    m ∈ (visitP g (fun _ => false) (g.size + 1) n ([], [])).2 ↔ m ∈ reachable g n := by
+  have h := visitP_inv g (g.size + 1) n ([], []) (fun _ => False) (by intro m; simp)
+  have h' := h m
+  rw [visitP_fst] at h'
+  simp only [or_false] at h'
+  exact h'.symm
+
+theorem collectPreTasksOrdered_perm (g : Graph) (n : Nat) : collectPreTasksOrdered g n ~ collectPreTasks g n := by
+  unfold collectPreTasksOrdered collectPreTasks
+  refine (perm_ext_iff_of_nodup (nodup_firstWins _ [] nodup_nil) (nodup_dedup _)).mpr ?_
+  intro a
+  simp only [mem_firstWins, mem_dedup, not_mem_nil, false_or, mem_flatten, mem_map]
+  constructor
+  · rintro ⟨l, ⟨m, hm, rfl⟩, ha⟩
+    exact ⟨_, ⟨m, (mem_post_iff_reachable g n m).mp hm, rfl⟩, ha⟩
+  · rintro ⟨l, ⟨m, hm, rfl⟩, ha⟩
+    exact ⟨_, ⟨m, (mem_post_iff_reachable g n m).mpr hm, rfl⟩, ha⟩
+
+/-- the order used by `sorted(pre_tasks_ids)` is a total order on digests. -/
+structure LeOrder {D : Type} (hc : HC D) : Prop where
+  total : ∀ a b, hc.le a b = true ∨ hc.le b a = true
+  trans : ∀ a b c, hc.le a b = true → hc.le b c = true → hc.le a c = true
+  antisymm : ∀ a b, hc.le a b = true → hc.le b a = true → a = b
+
+theorem sortBy_preTasks {D : Type} (hc : HC D) (ho : LeOrder hc) (g : Graph) (n : Nat) (f : Nat → D) :
+    sortBy hc.le ((collectPreTasksOrdered g n).map f) = sortBy hc.le ((collectPreTasks g n).map f) :=
+  sortBy_eq_of_perm hc.le ho.total ho.trans ((collectPreTasksOrdered_perm g n).map f)
+    (fun a b _ _ => ho.antisymm a b)
+
+/-! ### query-only histories -/
+
+/-- operations that do not change the content of the graph: `seal`, and the two identifier requests. -/
+def Op.isQuery : Op → Bool
+  | .sealOp _ | .reqRaw _ | .reqFull _ => true
+  | _ => false
+
+/-- run a history; the outputs in order. -/
+def runOps {D : Type} (hc : HC D) (flagStored : Bool) : St D → List Op → St D × List (Out D)
+  | s, [] => (s, [])
+  | s, o :: os =>
+    let r := step hc flagStored s o
+    let r' := runOps hc flagStored r.1 os
+    (r'.1, r.2 :: r'.2)
+
+/-- what the cache-free specification answers to a query on graph `g`. -/
+def specOut {D : Type} (hc : HC D) (g : Graph) : Op → Out D
+  | .reqRaw n => .id (rawId hc g n)
+  | .reqFull n => .id (fullId hc g n)
+  | _ => .ok
+
+/-- `reqRaw` is sound for an invariant `J` of the raw cache: it answers the specification and keeps `J`. -/
+def RawSound {D : Type} (hc : HC D) (g0 : Graph) (J : (Nat → Option (D × Bool)) → Prop) : Prop :=
+  ∀ (s : St D) (n : Nat), SameContent g0 s.g → J s.c.raw →
+    (reqRaw hc true s n).2 = rawId hc g0 n ∧ (reqRaw hc true s n).1.g = s.g ∧
+    J (reqRaw hc true s n).1.c.raw ∧ (reqRaw hc true s n).1.c.full = s.c.full
+
+theorem rawSound_of {D : Type} (hc : HC D) (g0 : Graph) (J : (Nat → Option (D × Bool)) → Prop)
+    (hhit : ∀ raw n d b, J raw → raw n = some (d, b) → d = rawId hc g0 n)
+    (hmiss : ∀ (s : St D) n, SameContent g0 s.g → J s.c.raw →
+      computeAt hc s.g s.c (s.g.size + 1) [] n = rawId hc g0 n)
+    (hstore : ∀ (s : St D) n, SameContent g0 s.g → J s.c.raw →
+      J (updF s.c.raw n (some (rawId hc g0 n, decide (escAt s.g s.c (s.g.size + 1) [] n ≥ 1))))) :
+    RawSound hc g0 J := by
+  intro s n hg hJ
+  unfold reqRaw
+  simp only [Bool.true_and]
+  split
+  · rename_i d b heq
+    refine ⟨?_, rfl, hJ, rfl⟩
+    split at heq
+    · exact hhit _ _ _ _ hJ heq
+    · cases heq
+  · rw [hmiss s n hg hJ]
+    split
+    · exact ⟨rfl, rfl, hstore s n hg hJ, rfl⟩
+    · exact ⟨rfl, rfl, hJ, rfl⟩
+
+/-- the state invariant along a query-only history started on `g0`. -/
+def Good {D : Type} (hc : HC D) (g0 : Graph) (J : (Nat → Option (D × Bool)) → Prop) (s : St D) : Prop :=
+  SameContent g0 s.g ∧ J s.c.raw ∧ ∀ n d, s.c.full n = some d → d = fullId hc g0 n
+
+theorem good_empty {D : Type} (hc : HC D) (g : Graph) (J : (Nat → Option (D × Bool)) → Prop)
+    (hJ : J (fun _ => none)) : Good hc g J { g := g, c := Caches.empty } :=
+  ⟨SameContent.refl g, hJ, fun _ _ h => by cases h⟩
+
+theorem reqRaws_sound {D : Type} (hc : HC D) (g0 : Graph) (J : (Nat → Option (D × Bool)) → Prop)
+    (hRS : RawSound hc g0 J) : ∀ (ns : List Nat) (s : St D), SameContent g0 s.g → J s.c.raw →
+    (reqRaws hc true s ns).2 = ns.map (rawId hc g0) ∧ (reqRaws hc true s ns).1.g = s.g ∧
+    J (reqRaws hc true s ns).1.c.raw ∧ (reqRaws hc true s ns).1.c.full = s.c.full
+  | [], s, _, hJ => ⟨rfl, rfl, hJ, rfl⟩
+  | n :: ns, s, hg, hJ => by
+    obtain ⟨h1, h2, h3, h4⟩ := hRS s n hg hJ
+    obtain ⟨k1, k2, k3, k4⟩ := reqRaws_sound hc g0 J hRS ns (reqRaw hc true s n).1 (h2 ▸ hg) h3
+    simp only [reqRaws, map_cons]
+    exact ⟨by rw [h1, k1], k2.trans h2, k3, k4.trans h4⟩
+
+theorem reqFull_sound {D : Type} (hc : HC D) (ho : LeOrder hc) (g0 : Graph) (J : (Nat → Option (D × Bool)) → Prop)
+    (hRS : RawSound hc g0 J) (s : St D) (n : Nat) (hs : Good hc g0 J s) :
+    (reqFull hc true s n).2 = fullId hc g0 n ∧ Good hc g0 J (reqFull hc true s n).1 := by
+  obtain ⟨hg, hJ, hF⟩ := hs
+  have h1 := hRS s n hg hJ
+  unfold reqFull
+  generalize reqRaw hc true s n = r1 at h1 ⊢
+  obtain ⟨s1, raw⟩ := r1
+  simp only at h1 ⊢
+  obtain ⟨e1, e2, e3, e4⟩ := h1
+  have hg1 : SameContent g0 s1.g := e2 ▸ hg
+  split
+  · rename_i d heq
+    split at heq
+    · exact ⟨hF n d (e4 ▸ heq), hg1, e3, fun m d hd => hF m d (e4 ▸ hd)⟩
+    · cases heq
+  · have h2 := reqRaws_sound hc g0 J hRS (collectPreTasksOrdered s1.g n) s1 hg1 e3
+    generalize reqRaws hc true s1 (collectPreTasksOrdered s1.g n) = r2 at h2 ⊢
+    obtain ⟨s2, pre⟩ := r2
+    simp only at h2 ⊢
+    obtain ⟨f1, f2, f3, f4⟩ := h2
+    have hg2 : SameContent g0 s2.g := f2 ▸ hg1
+    have h3 := reqRaws_sound hc g0 J hRS (s1.g.node n).initTasks s2 hg2 f3
+    generalize reqRaws hc true s2 (s1.g.node n).initTasks = r3 at h3 ⊢
+    obtain ⟨s3, ini⟩ := r3
+    simp only at h3 ⊢
+    obtain ⟨k1, k2, k3, k4⟩ := h3
+    have hg3 : SameContent g0 s3.g := k2 ▸ hg2
+    have hd : hc.H (hc.emb raw ++ (map hc.emb (sortBy hc.le pre)).flatten ++
+          if (s1.g.node n).initTasks.isEmpty = true then [] else 12 :: (map hc.emb ini).flatten)
+        = fullId hc g0 n := by
+      rw [e1, f1, k1, sortBy_preTasks hc ho, hg1.collectPreTasks, hg1.initTasks]
+      unfold fullId
+      simp only [map_map]
+      rfl
+    rw [hd]
+    have hF3 : ∀ m d, s3.c.full m = some d → d = fullId hc g0 m := by
+      intro m d hd; rw [k4, f4, e4] at hd; exact hF m d hd
+    split
+    · refine ⟨rfl, hg3, k3, ?_⟩
+      intro m d hd
+      simp only [updF] at hd
+      split at hd
+      · rename_i hm; cases hd; rw [hm]
+      · exact hF3 m d hd
+    · exact ⟨rfl, hg3, k3, hF3⟩
+
+theorem step_sound {D : Type} (hc : HC D) (ho : LeOrder hc) (g0 : Graph) (J : (Nat → Option (D × Bool)) → Prop)
+    (hRS : RawSound hc g0 J) (s : St D) (o : Op) (hq : o.isQuery = true) (hs : Good hc g0 J s) :
+    (step hc true s o).2 = specOut hc g0 o ∧ Good hc g0 J (step hc true s o).1 := by
+  cases o with
+  | sealOp n => exact ⟨rfl, hs.1.trans (sameContent_sealFrom s.g n), hs.2⟩
+  | reqRaw n =>
+    obtain ⟨h1, h2, h3, h4⟩ := hRS s n hs.1 hs.2.1
+    simp only [step, specOut]
+    exact ⟨by rw [h1], h2 ▸ hs.1, h3, fun m d hd => hs.2.2 m d (h4 ▸ hd)⟩
+  | reqFull n =>
+    obtain ⟨h1, h2⟩ := reqFull_sound hc ho g0 J hRS s n hs
+    simp only [step, specOut]
+    exact ⟨by rw [h1], h2⟩
+  | set _ _ _ => cases hq
+  | setMeta _ _ => cases hq
+  | addPretask _ _ => cases hq
+
+/-- **generic history theorem**: if `reqRaw` is sound for `J`, every answer of a query-only history
+    is the specification's answer on the initial graph. -/
+theorem runOps_sound {D : Type} (hc : HC D) (ho : LeOrder hc) (g0 : Graph) (J : (Nat → Option (D × Bool)) → Prop)
+    (hRS : RawSound hc g0 J) : ∀ (ops : List Op) (s : St D), (∀ o, o ∈ ops → o.isQuery = true) → Good hc g0 J s →
+    (runOps hc true s ops).2 = ops.map (specOut hc g0)
+  | [], _, _, _ => rfl
+  | o :: os, s, hq, hs => by
+    obtain ⟨h1, h2⟩ := step_sound hc ho g0 J hRS s o (hq o (by simp)) hs
+    simp only [runOps, map_cons]
+    rw [h1, runOps_sound hc ho g0 J hRS os _ (fun o ho => hq o (by simp [ho])) h2]
+
 end XpmVerif.Ident
